@@ -327,9 +327,10 @@ def check_C01(tier):
     return run_hist_prop('C01', tier, 1, 700, 40000, families=gen.SCENARIOS + [gen.scen_cache_subdir],
                          extra_cases=lambda t, ds: gen.gen_scenario_cases(core.seed() * 31 + 101, budget(t, 130, 1200), ds, [gen.scen_identity]))
 def check_C02(tier):
-    from . import bkcheck
+    from . import bkcheck, rbcheck
     return run_hist_prop('C02', tier, 2, 700, 40000, p_fail=0.5, families=gen.SCENARIOS + [gen.scen_cache_subdir],
-                         unit_tie=('FB.Backups (restoreAll_spec, backUp_file) describes file_backups.py', bkcheck.run),
+                         unit_tie=('FB.Backups (restoreAll_spec, backUp_file) describes file_backups.py and FB.Rollback.rollBack describes FileBuilder._roll_back',
+                                   lambda t, rep: bkcheck.run(t, rep) + rbcheck.run(t, rep, measure())),
                          _after=lambda rep: [rep.violation('bulk_rollback', {'property': 'C02', 'kind': 'failing-input', 'what': q},
                                                            note=json.dumps(q, default=str)[:250]) for q in bulk_rollback_probe(tier, rep)[:2]])
 def check_C03(tier):
